@@ -443,8 +443,8 @@ theorem handshake_buffer_in_bounds (req : List Byte) :
 handshake succeeds then the request began with "GET ", carried a non-zero version, a key, a path,
 a host and an origin, the 101 response is the code's template filled with
 `base64 (sha1 (key ++ GUID))` for exactly the key string the scanner points at, and the sub-protocol
-answered is none, or "base64"/"binary" occurring in the client's Sec-WebSocket-Protocol value
-(base64 framing iff "base64" is answered) -/
+answered is none, or "base64"/"binary" being one of the comma-separated tokens of the client's
+Sec-WebSocket-Protocol value (base64 framing iff "base64" is answered) -/
 theorem handshake_accept_key (sha1 : List Byte → List Byte) (req : List Byte) (ending : HsEnd)
     (resp path unread : List Byte) (b64 : Bool) (h : handshake sha1 req ending = .ok resp b64 path unread) :
     pGet.isPrefixOf req = true ∧ (scanLoop req {}).1.version = true ∧
@@ -454,12 +454,12 @@ theorem handshake_accept_key (sha1 : List Byte → List Byte) (req : List Byte) 
                   fmt2 C09.handshakeFmt (ntop (sha1 ((scanLoop req {}).1.strAt k ++ strBytes C09.guid))) proto
                 else fmt2 C09.handshakeFmtNoProto (ntop (sha1 ((scanLoop req {}).1.strAt k ++ strBytes C09.guid))) []) ∧
         ((proto = [] ∧ b64 = false) ∨
-         (∃ p a b, (scanLoop req {}).1.ptr .protocol = some p ∧ (scanLoop req {}).1.strAt p = a ++ proto ++ b ∧
+         (∃ p, (scanLoop req {}).1.ptr .protocol = some p ∧ proto ∈ offerTokens ((scanLoop req {}).1.strAt p) ∧
             ((proto = bBase64 ∧ b64 = true) ∨ (proto = bBinary ∧ b64 = false)))) := by
   obtain ⟨h1, h2, _, _, _, k, hk, hb, hr⟩ := handshake_ok_shape sha1 req ending resp path unread b64 h
   refine ⟨h1, h2, k, hk, _, hr, ?_⟩
   generalize hO : ((scanLoop req {}).1.ptr .protocol).map (scanLoop req {}).1.strAt = O at hb hr ⊢
-  rcases chooseProtocol_spec O with ⟨c1, c2⟩ | ⟨p, a, b, c1, c2, c3⟩
+  rcases chooseProtocol_spec O with ⟨c1, c2⟩ | ⟨p, c1, c2, c3⟩
   · left; exact ⟨c1, by rw [hb, c2]⟩
   · right
     cases hp : (scanLoop req {}).1.ptr .protocol with
@@ -467,7 +467,7 @@ theorem handshake_accept_key (sha1 : List Byte → List Byte) (req : List Byte) 
     | some po =>
       rw [hp, c1] at hO
       simp only [Option.map_some, Option.some.injEq] at hO
-      refine ⟨po, a, b, rfl, by rw [hO]; exact c2, ?_⟩
+      refine ⟨po, rfl, by rw [hO]; exact c2, ?_⟩
       rw [hb]; exact c3
 
 /-- **refusal**: a request that does not begin with "GET ", or in which the scanner finds no
@@ -534,47 +534,50 @@ theorem handshake_missing_key_or_version (sha1 : List Byte → List Byte) (F : R
   · simp [h]
   · cases hv : F.version <;> simp [h]
 
-/-- Sub-protocol selection, unconditional part: the `Sec-WebSocket-Protocol` value of the answer is
-absent or exactly the single word `base64` or `binary` — never a list, never an echo of the offer —
-and the connection's base64 flag says which one. -/
+/-- Sub-protocol selection: the `Sec-WebSocket-Protocol` value of the answer is absent or exactly
+the single word `base64` or `binary` — never a list, never an echo of the offer — and the
+connection's base64 flag says which one. -/
 theorem protocol_selection_single (offered : Option (List Byte)) :
     ((chooseProtocol offered).2 = [] ∧ (chooseProtocol offered).1 = false) ∨
     ((chooseProtocol offered).2 = bBase64 ∧ (chooseProtocol offered).1 = true) ∨
     ((chooseProtocol offered).2 = bBinary ∧ (chooseProtocol offered).1 = false) := by
-  rcases chooseProtocol_spec offered with h | ⟨_, _, _, _, _, h | h⟩
+  rcases chooseProtocol_spec offered with h | ⟨_, _, _, h | h⟩
   · exact .inl h
   · exact .inr (.inl h)
   · exact .inr (.inr h)
 
-/-- Sub-protocol selection: the selected sub-protocol is **one of the offered tokens or absent**
-(tokens = the comma-separated elements of the header value with surrounding blanks removed), for
-every offer in which the words `base64` / `binary` occur as whole tokens only.  (The C code selects
-with `strstr`; an offer such as `superbase64x` is answered with `base64` — see
-`protocol_selection_substring_quirk` and docs/C09.md, observation on sub-protocol matching.) -/
-theorem protocol_selection_offered_or_absent (offered : Option (List Byte))
-    (hclean : ∀ p, offered = some p → ∀ s ∈ splitComma p,
-      (hasInfix bBase64 s = true → stripBlanks s = bBase64) ∧
-      (hasInfix bBinary s = true → stripBlanks s = bBinary)) :
+/-- Sub-protocol selection (RFC 6455 §4.2.2): for **every** offer the selected sub-protocol is
+**one of the offered tokens or absent** (tokens = the comma-separated elements of the header value
+with surrounding blanks and tabs removed).  Model of `webSocketsProtocolOffered`
+(`fixes/C09-subprotocol-token-match.diff`). -/
+theorem protocol_selection_offered_or_absent (offered : Option (List Byte)) :
     (chooseProtocol offered).2 = [] ∨
     ∃ p, offered = some p ∧ (chooseProtocol offered).2 ∈ offerTokens p := by
-  cases offered with
-  | none => exact .inl rfl
-  | some p =>
-    rcases chooseProtocol_token p (hclean p rfl) with h | h
-    · exact .inl h
-    · exact .inr ⟨p, rfl, h⟩
+  rcases chooseProtocol_spec offered with h | ⟨p, h1, h2, _⟩
+  · exact .inl h.1
+  · exact .inr ⟨p, h1, h2⟩
 
-/-- the side condition of `protocol_selection_offered_or_absent` is needed: substring matching -/
-theorem protocol_selection_substring_quirk :
-    (chooseProtocol (some (strBytes "superbase64x"))).2 = bBase64 ∧
-    bBase64 ∉ offerTokens (strBytes "superbase64x") := by decide
+/-- Sub-protocol selection is complete and keeps the code's preference: `base64` is answered
+whenever it is an offered token, otherwise `binary` whenever it is one, otherwise nothing. -/
+theorem protocol_selection_preference (p : List Byte) :
+    (bBase64 ∈ offerTokens p → chooseProtocol (some p) = (true, bBase64)) ∧
+    (bBase64 ∉ offerTokens p → bBinary ∈ offerTokens p → chooseProtocol (some p) = (false, bBinary)) ∧
+    (bBase64 ∉ offerTokens p → bBinary ∉ offerTokens p → chooseProtocol (some p) = (false, [])) :=
+  chooseProtocol_complete p
 
--- non-vacuity: the side condition holds for ordinary offers and the answer is the offered token
-example : (∀ s ∈ splitComma (strBytes "chat , binary,mqtt"),
-      (hasInfix bBase64 s = true → stripBlanks s = bBase64) ∧
-      (hasInfix bBinary s = true → stripBlanks s = bBinary)) ∧
-    offerTokens (strBytes "chat , binary,mqtt") = [strBytes "chat", bBinary, strBytes "mqtt"] ∧
-    (chooseProtocol (some (strBytes "chat , binary,mqtt"))).2 = bBinary := by decide
+/-- **defect of the code as found** (`strstr` on the whole header value): the offer `superbase64x`
+is answered with `base64`, which the client did not offer; the token-wise selection answers
+nothing. -/
+theorem defect_subprotocol_substring_match_unfixed :
+    (chooseProtocolUnfixed (some (strBytes "superbase64x"))).2 = bBase64 ∧
+    bBase64 ∉ offerTokens (strBytes "superbase64x") ∧
+    (chooseProtocol (some (strBytes "superbase64x"))).2 = [] := by decide
+
+-- the selection on ordinary offers
+example : offerTokens (strBytes "chat , binary,mqtt") = [strBytes "chat", bBinary, strBytes "mqtt"] ∧
+    chooseProtocol (some (strBytes "chat , binary,mqtt")) = (false, bBinary) ∧
+    chooseProtocol (some (strBytes "binary,\t base64")) = (true, bBase64) ∧
+    chooseProtocol (some (strBytes "BINARY, xbinary")) = (false, []) := by decide
 
 -- non-vacuity: a small request, header names in mixed case, in "wrong" order
 private def exLines : List (List Byte) :=
